@@ -163,6 +163,13 @@ def gen_cases(rng, tier):
             n = rng.choice([1, -1, 2, 5, -5, 30]);
             while abs(span // (per * abs(n))) > 3000: n *= 10
             add(t0, t1, {'str': '%d%s' % (n, u)})
+    for _ in range(80 * N):        # sub-second timedeltas whose span is an exact multiple (float-division closed forms lose the last element)
+        a = rng.randrange(LO, HI) * DAYUS + rng.randrange(86400) * 1000000
+        us = rng.choice([100000, 300000, 250000, 1, 7, 999999, 1100000]); k = rng.randrange(1, 60)
+        t0, t1 = a, a + us * k
+        if rng.random() < 0.5:
+            t0, t1, us = t1, t0, -us
+        add(t0, t1, {'td_us': us})
     for _ in range(250 * N):       # w/m/q/y single periods from a day <= 28 at midnight, both signs
         a = day28(rng); u = rng.choice('wmqy'); n = rng.choice([1, -1, 2, -2, 3, -1, 1])
         span = rng.choice([0, rng.randrange(0, 1100), rng.randrange(0, 400)])
